@@ -193,6 +193,7 @@ func compareType1(xt xr.Type, rt r.Type, label bool, errf func(string, ...interf
 		}
 	}
 	compareMethods(xt, rt, label, errf)
+	comparePromoted(xt, rt, label, errf)
 }
 
 // sigOf returns the parameter and result types of a func type without its first nrecv parameters
